@@ -22,7 +22,8 @@ type c17Big struct {
 }
 
 type c17Case struct {
-	Kind   string   `json:"kind"` // "config" | "request"
+	Kind   string   `json:"kind"`          // "config" | "request" | "history"
+	Ops    []string `json:"ops,omitempty"` // history: operations of engine/vcheck/c09.go plus "Config()" and "request"
 	Cfg    CfgLit   `json:"config"`
 	NilCfg bool     `json:"nil_config,omitempty"`
 	Debug  bool     `json:"debug,omitempty"`
@@ -107,6 +108,26 @@ func c17Judge(k c17Case) *vlib.Failure {
 			req.Hdr = hdr
 		}
 		m.Wrap(http.HandlerFunc(func(http.ResponseWriter, *http.Request) {})).ServeHTTP(vlib.NewRec(), req.HTTP())
+	case "history":
+		smEnsure()
+		for _, init := range []string{"new(A)", "zero"} {
+			m, _, err := smInit(init)
+			if err != nil {
+				return vlib.Failf("configuration A rejected: %v", err)
+			}
+			h := m.Wrap(http.HandlerFunc(func(http.ResponseWriter, *http.Request) {}))
+			for _, op := range k.Ops {
+				switch op {
+				case "Config()":
+					_ = m.Config()
+				case "request":
+					h.ServeHTTP(vlib.NewRec(), smSuite[len(smSuite)/2].HTTP())
+					h.ServeHTTP(vlib.NewRec(), smSuite[len(smSuite)-1].HTTP())
+				default:
+					_ = smApply(m, op)
+				}
+			}
+		}
 	default:
 		return vlib.Failf("bad case")
 	}
@@ -238,6 +259,19 @@ func checkC17(c *vlib.Ctx) (string, string) {
 		ix := cp.At(i, tmp[:0])
 		k := c04Make(sws[ix[0]], ol[ix[1]], []int{0}, []int{0, 2}, []int{[]int{0, 2}[ix[2]]}, 600, 201, "new")
 		tryCfg(k.Cfg)
+	})
+	// (c3) every history of up to 4 [5] API calls (SetDebug, Reconfigure incl. nil / invalid / Config(), Config(), requests)
+	hops := append(append([]string{}, smOps...), "Config()", "request")
+	hw := vlib.NewWords(hops, vlib.Pick(c, 4, 5))
+	c.ParRange(hw.Count(), 64, "C17 API histories", func(i int64) {
+		var tmp [8]int
+		k := c17Case{Kind: "history"}
+		for _, sy := range hw.Syms(i, tmp[:0]) {
+			k.Ops = append(k.Ops, hops[sy])
+		}
+		c.States.Add(1)
+		c.Transitions.Add(int64(2 * len(k.Ops)))
+		ck.Try(k)
 	})
 	// (d) requests
 	disc := []string{"https://a.b", "https://*.a.b", "https://b.a:*", "http://1.2.3.4", "http://[::1]", "ab://c"}
